@@ -77,6 +77,7 @@ KindOk(k, code) ==
       [] k = "p109"   -> code = -109
       [] k = "type"   -> IsCommandErr(code)
       [] k = "range"  -> code = -222
+      [] k = "form"   -> code = -113          \* query form of a command-only header or vice versa (SCPI-99 6.2.2)
       [] OTHER        -> FALSE
 
 (* ---------------- one message unit ---------------- *)
@@ -127,6 +128,8 @@ UnitOutcomes(s, env, u, mav) ==
       [] u.op = "countq" -> Ok(s, <<Num(Len(s.queue))>>)
       [] u.op = "allq"  -> IF s.queue = <<>> THEN Ok(s, <<Item(NoErr)>>)
                            ELSE Ok([s EXCEPT !.queue = <<>>], s.queue) \cup Ok([s EXCEPT !.queue = <<>>], BareItems(s.queue))
+      [] u.op = "idnq"  -> Ok(s, <<Num(4)>>)       \* *IDN?: four fields, exactly as configured (the projection counts the matching fields)
+      [] u.op = "versq" -> Ok(s, <<Num(1999), Num(0)>>)   \* SYSTem:VERSion? answers 1999.0
       [] u.op = "nop"   -> Ok(s, <<>>)             \* a harmless device command
       [] u.op = "nopq"  -> Ok(s, <<Num(u.v)>>)         \* a harmless device query echoing v
       [] u.op = "fail"  -> Bad(s, Err(u.code, u.ext))            \* handler-raised error
